@@ -29,13 +29,17 @@ REAL = ['UARTSerializer', 'UARTDeserializer', 'ClockGenerationAndRecovery (Clock
 STUB = ['byte producer', 'byte consumer', 'software 8N1 receiver (oracle)']
 ASSUMPTIONS = ['consumer READY is never low for more than 3 bit times in a row (no flow control on a UART)',
                'bit period = 2*floor(ratio/2) system clocks, as the divider itself reports for odd ratios']
-PROBES = ['data_bus_not_8_bits', 'back_to_back', 'gap', 'phase', 'consumer_stall_while_waiting', 'odd_ratio', 'min_ratio', 'boundary_byte']
+PROBES = ['slow_link', 'clock_block_in_own_domain', 'deserializer_added_late_in_subblock', 'data_bus_not_8_bits', 'back_to_back', 'gap', 'phase', 'consumer_stall_while_waiting', 'odd_ratio', 'min_ratio', 'boundary_byte']
 
 
 def gen(rs, tier, index):
     rng = rs.get('design')
     ratio = rng.choice([4, 4, 5, 6, 7, 8, 10, 16, 25, 33, 64, rng.randint(4, 64)])
+    if rng.random() < 0.03:
+        ratio = rng.choice([434, 434, 500, 868])      # slow links (434 = 50 MHz / 115200 baud, the library's own HIL configuration)
     nbytes = rng.randint(1, 8) if (tier == 'quick' or ratio > 32) else rng.randint(1, 14)
+    if ratio > 64:
+        nbytes = rng.randint(1, 3)
     P = 2 * (ratio // 2)
     data = []
     for _ in range(nbytes):
@@ -48,8 +52,18 @@ def gen(rs, tier, index):
     if vw < 8:
         for x in data:
             x['b'] &= (1 << vw) - 1
-    return {'vw': vw, 'ratio': ratio, 'bytes': data, 'phase': rng.randint(0, 3 * P), 'p_ready': rng.choice([1.0, 0.9, 0.5, 0.2]),
+    if ratio > 64:
+        for x in data:
+            x['gap'] = min(x['gap'], 2 * P)
+    lr = rs.get('layout')
+    # layout: where the blocks live - all under the system; the deserializer instantiated inside an existing nested block
+    # after the simulator was fetched; the clock block in a board block with a clock driver of its own (same clock)
+    return {'layout': lr.choice(['flat', 'flat', 'flat', 'late_nested_des', 'clk_own_driver']), 'vw': vw, 'ratio': ratio, 'bytes': data, 'phase': rng.randint(0, 3 * P), 'p_ready': rng.choice([1.0, 0.9, 0.5, 0.2]),
             'cons_seed': rs.sub('cons'), 'perm_seed': rs.sub('perm')}
+
+
+class _Box(py4hw.Logic):
+    pass
 
 
 def soft_uart_rx(line, P):
@@ -101,11 +115,30 @@ def run(scn, log, st):
     tx = hw.wire('tx')
     tx_pulse, rx_sample, desync = hw.wire('tx_clk_pulse'), hw.wire('rx_sample'), hw.wire('desync')
     d_ready, d_valid, d_v = hw.wire('d_ready'), hw.wire('d_valid'), hw.wire('d_v', 8)
+    layout = scn.get('layout', 'flat')
     with quiet():
-        ClockGenerationAndRecovery(hw, 'clkgen', tx, desync, tx_pulse, rx_sample, ratio * 1000, 1000)
+        cpar = hw
+        if layout == 'clk_own_driver':
+            cpar = _Box(hw, 'board')
+            cpar.clockDriver = py4hw.ClockDriver('board_clk', base=hw.clockDriver)
+            st.probe('clock_block_in_own_domain')
         UARTSerializer(hw, 'ser', s_ready, s_valid, s_v, tx_pulse, tx)
-        UARTDeserializer(hw, 'des', tx, rx_sample, d_ready, d_valid, d_v, desync)
+        if layout == 'late_nested_des':
+            dpar = _Box(_Box(hw, 'rx'), 'inner')
+            t_ = dpar.wire('tie')
+            py4hw.Constant(dpar, 'tie', 0, t_)
+            py4hw.Buf(dpar, 'keep', t_, dpar.wire('kept'))
+            ClockGenerationAndRecovery(cpar, 'clkgen', tx, desync, tx_pulse, rx_sample, ratio * 1000, 1000)
+            hw.getSimulator()
+            UARTDeserializer(dpar, 'des', tx, rx_sample, d_ready, d_valid, d_v, desync)
+            st.probe('deserializer_added_late_in_subblock')
+            st.fault('late_add')
+        else:
+            ClockGenerationAndRecovery(cpar, 'clkgen', tx, desync, tx_pulse, rx_sample, ratio * 1000, 1000)
+            UARTDeserializer(hw, 'des', tx, rx_sample, d_ready, d_valid, d_v, desync)
         sim = hw.getSimulator()
+    if ratio > 64:
+        st.probe('slow_link')
     seams.EdgeShuffler(sim, random.Random(scn['perm_seed']), st)
     crng = random.Random(scn['cons_seed'])
     todo = list(scn['bytes'])
@@ -190,6 +223,8 @@ def shrink(scn):
     yield from shrink_list(scn, 'bytes', 1)
     if scn.get('vw', 8) > 8:
         yield dict(scn, vw=8)
+    if scn.get('layout', 'flat') != 'flat':
+        yield dict(scn, layout='flat')
     if scn['phase']:
         yield dict(scn, phase=0)
     if scn['p_ready'] != 1.0:
